@@ -898,6 +898,12 @@ def evaluate(ctx, cases, stream=None):
         eval_grow(ctx, grw)
 
 
+def budget(ctx, quick, edited, thorough):
+    if ctx.tier == 'thorough':
+        return thorough
+    return edited if ctx.escalated else quick
+
+
 def run(ctx):
     ctx.rule = ('geom: four points, either uniform in a 40 A box (bond > 0.5 A, sin(bond angle) > 0.05, |sin(torsion)| > 0.02) or '
                 'built from internal coordinates with a prescribed clockwise twist and moved rigidly, in cubic / orthorhombic / '
@@ -909,16 +915,23 @@ def run(ctx):
     ctx.assumptions = ['exact arithmetic: the theorems hold over the reals; acos/sqrt/atan2 enter as parameters with their defining relations',
                        'float residual: implementation compared with the atan2 reference at 1e-6 degrees (1e-4 at planar arrangements)',
                        'cell angles with sin(gamma) != 0 and positive volume']
-    n = ctx.budget(3000, 60000)
-    m = ctx.budget(1200, 15000)
+    # (quick, quick tier on edited code, thorough).  harness/main.py raises the budget to the thorough one when a mirrored
+    # file (atoms/atoms.py, misc/dsrmath.py: any edit anywhere in them) differs from the digest the model was written
+    # against.  For C15 the arithmetic of the edited code is tied to the model for ALL inputs on every run by the `src_…`
+    # theorems over the traced source (ShelxProps/C15.lean, extract/trace_c15.py), so the extra sampling is there for what
+    # tracing does not see (object plumbing, histories, the filter of find_atoms_around, rounding at planar arrangements):
+    # four times the quick budget, twice for the slow grow() stream, instead of the 16–20 times of the thorough tier
+    # (which took 6–7 minutes of a quick-tier run for any edit of those two files).
+    n = budget(ctx, 3000, 12000, 60000)
+    m = budget(ctx, 1200, 5000, 15000)
     cases = [WITNESS, CLOCKWISE, TYPO]
     for _ in range(n):
         cases.append(make_geom(ctx.rng))
     for _ in range(m):
         cases.append(make_around(ctx.rng))
-    for _ in range(ctx.budget(1200, 20000)):
+    for _ in range(budget(ctx, 1200, 5000, 20000)):
         cases.append(make_route(ctx.rng))
-    for _ in range(ctx.budget(250, 4000)):
+    for _ in range(budget(ctx, 250, 500, 4000)):
         cases.append(make_grow(ctx.rng))
     for i in range(0, len(cases), 1000):
         evaluate(ctx, cases[i:i + 1000])
